@@ -40,6 +40,9 @@ nni_mtx_fini(nni_mtx *m)
 void
 nni_mtx_lock(nni_mtx *m)
 {
+	/* e.g. nni_msgq_close(NULL): the mutex is the first member of an object that was never allocated */
+	CHECK(m != NULL, "nni_mtx_lock(NULL): the object the lock lives in does not exist (null pointer dereference)");
+	ASSUME(m != NULL);
 	/* held by a suspended frame of another (simulated) thread: this schedule is
 	 * not executable as a nested one (the real thread would wait) - prune it */
 	ASSUME(*env_mtx_word(m) == 0 || *env_mtx_word(m) == env_sched_depth + 1);
